@@ -196,8 +196,8 @@ pub fn run(e: &'static Engine) {
     let mut jobs: Vec<Job> = Vec::new();
     for _ in 0..shards {
         jobs.push(Box::new(move |jc: &mut JobCtx| {
-            let strat = (prop_oneof![3 => 1usize..=10, 1 => 1usize..=40], prop_oneof![Just(None), (0usize..=16).prop_map(Some)], prop_oneof![Just(None), (0usize..3).prop_map(Some)], any::<[bool; 3]>(), warm_strategy())
-                .prop_flat_map(|(v, margin, shape, present, warm)| {
+            let strat = (prop_oneof![3 => 1usize..=10, 1 => 1usize..=40], prop_oneof![Just(None), (0usize..=16).prop_map(Some)], prop_oneof![Just(None), (0usize..3).prop_map(Some)], any::<[bool; 3]>(), warm_strategy(), prop_oneof![1 => Just(0u8), 1 => any::<u8>()])
+                .prop_flat_map(|(v, margin, shape, present, warm, order)| {
                     let n = size(v) as f64;
                     let s_total = n + 2.0 * margin.unwrap_or(4) as f64;
                     (
@@ -207,7 +207,7 @@ pub fn run(e: &'static Engine) {
                     )
                         .prop_map(move |(size_o, gap, pos)| Case {
                             version: v,
-                            cfg: SvgCfg { margin, image: Some("logo.png".into()), image_bg_shape: shape, image_size: size_o, image_gap: gap, image_position: pos, warm, ..SvgCfg::default() },
+                            cfg: SvgCfg { margin, image: Some("logo.png".into()), image_bg_shape: shape, image_size: size_o, image_gap: gap, image_position: pos, warm, order, ..SvgCfg::default() },
                         })
                 });
             jc.run_prop(1 << 20, &strat, total / shards, to_json, |c, o| {
